@@ -202,7 +202,7 @@ def sc_solve(ctx, a, seam):
             try:
                 out.append([c.id, q, getattr(sol, "get_" + q)(c.id)])
             except Exception as e:
-                out.append([c.id, q, e])
+                out.append([c.id, q, e.with_traceback(None)])
     return out
 
 
